@@ -1,14 +1,182 @@
 (* C14 — within-time-point neighbour distances and sampling normalisation.
    Property theorems only (proofs: thm/C14Thm.v; generated functions and tables: gen/C14Gen.v, regenerated every run;
    loop model: thm/C14Model.v). *)
-From Coq Require Import ZArith QArith List String.
+From Coq Require Import ZArith QArith List Bool Sorting.Sorted.
 From MellonV Require Import PyVal PyValExtC14 C14Gen C14Model C14Thm.
 Import ListNotations.
 Open Scope Z_scope.
 
+(* the statements of the source loop are the statements the hand-written loop model mirrors; compute_nn_distances is
+   compute_distances(x, 1)[:, 0]; n_obs is set from compute_average_cell_count(self.x, self.normalize_per_time_point) *)
 Theorem C14_skeleton :
   nnwt_skeleton = expected_nnwt_skeleton
   /\ compute_nn_distances_skeleton = expected_compute_nn_distances_skeleton
   /\ n_obs_wiring = expected_n_obs_wiring.
 Proof. exact skeleton_ok. Qed.
 Print Assumptions C14_skeleton.
+
+(* nn_within_spec: for ANY number of cells and time points: every time point has at least two cells, and output i is
+   (factor of its group member) * (neighbour distance of cell i inside the group of cells with its time stamp), at the
+   ORIGINAL position i; positions of no listed time point keep their initial value *)
+Theorem C14_nn_within_spec :
+  forall (P : Type) (nn_oracle : list P -> list xf) (fac : xf -> list bool -> nat -> res (option (list xf))),
+  (forall g, length (nn_oracle g) = length g) ->
+  forall cs : list (P * xf),
+  (forall t fs, fac t (mask_of cs t) (count_true (mask_of cs t)) = Ok (Some fs) -> length fs = count_true (mask_of cs t)) ->
+  forall uts init out,
+  length init = length cs -> distinct uts ->
+  loop nn_oracle fac cs uts init = Ok out ->
+  length out = length cs
+  /\ (forall u, In u uts ->
+        (2 <= count_true (mask_of cs u))%nat /\
+        exists fo, fac u (mask_of cs u) (count_true (mask_of cs u)) = Ok fo /\
+          forall i, (i < length cs)%nat -> xf_eqb (time_of cs i) u = true -> nth i out XNaN = value_at nn_oracle cs u fo i)
+  /\ (forall i, (i < length cs)%nat -> (forall u, In u uts -> xf_eqb (time_of cs i) u = false) -> nth i out XNaN = nth i init XNaN).
+Proof. exact (@loop_spec). Qed.
+Print Assumptions C14_nn_within_spec.
+
+(* under the contract of the neighbour search, the group value is the distance to the closest OTHER cell with the SAME stamp *)
+Theorem C14_nearest_same_time_point :
+  forall (P : Type) (dP : P) (dist : P -> P -> xf) (le : xf -> xf -> Prop) (nn_oracle : list P -> list xf),
+  (forall g k, (2 <= length g)%nat -> (k < length g)%nat -> is_nn dP dist le g k (nth k (nn_oracle g) XNaN)) ->
+  forall (cs : list (P * xf)) u i,
+  (i < length cs)%nat -> xf_eqb (time_of cs i) u = true -> (2 <= count_true (mask_of cs u))%nat ->
+  let v := nth (rank (mask_of cs u) i) (nn_oracle (select (mask_of cs u) (map fst cs))) XNaN in
+  (exists j, (j < length cs)%nat /\ j <> i /\ xf_eqb (time_of cs j) u = true /\ v = dist (point_of dP cs i) (point_of dP cs j))
+  /\ (forall j, (j < length cs)%nat -> j <> i -> xf_eqb (time_of cs j) u = true -> le v (dist (point_of dP cs i) (point_of dP cs j))).
+Proof. exact (@group_nn_is_within_time_point). Qed.
+Print Assumptions C14_nearest_same_time_point.
+
+(* the whole routine (generated prologue + loop), times as trailing column, no normalisation *)
+Theorem C14_routine_raw :
+  forall (nn_oracle : list (list xf) -> list xf) (powf : xf -> xf -> xf),
+  (forall g, length (nn_oracle g) = length g) ->
+  forall n c dat d nz v,
+  0 <= n -> 1 <= c -> nz = VNone \/ nz = VBool false ->
+  nn_within nn_oracle powf (VArr KF [n; c] dat) VNone d nz = Ok v ->
+  let cs := cells_of dat n c in
+  let uts := sort_dedup (col_list dat n c (c - 1)) in
+  exists out, v = VArr KF [n] out /\ length out = Z.to_nat n /\
+    forall i, (i < Z.to_nat n)%nat ->
+      exists u, In u uts /\ xf_eqb (time_of cs i) u = true /\ (2 <= count_true (mask_of cs u))%nat /\
+        nth i out XNaN = nth (rank (mask_of cs u) i) (nn_oracle (select (mask_of cs u) (feature_rows dat n c))) XNaN.
+Proof. exact nn_within_column_raw. Qed.
+Print Assumptions C14_routine_raw.
+
+Theorem C14_singleton_refused :
+  forall (P : Type) (nn_oracle : list P -> list xf) (fac : xf -> list bool -> nat -> res (option (list xf))) (cs : list (P * xf)) uts init u,
+  In u uts -> (count_true (mask_of cs u) < 2)%nat -> (forall t m n, exists fo, fac t m n = Ok fo) ->
+  loop nn_oracle fac cs uts init = Err ValueError.
+Proof. exact (@loop_singleton_refused). Qed.
+Print Assumptions C14_singleton_refused.
+
+(* unique times: ascending ("earliest to latest"), pairwise distinct, covering every stamp *)
+Theorem C14_unique_times :
+  forall l, distinct (sort_dedup l)
+  /\ (existsb xf_isnan l = false -> StronglySorted lt_rel (sort_dedup l))
+  /\ (forall x, In x l -> xf_isnan x = false -> exists u, In u (sort_dedup l) /\ xf_eqb x u = true).
+Proof. intros l. split; [apply sort_dedup_distinct|]. split; [apply sort_dedup_sorted|apply sort_dedup_cover]. Qed.
+Print Assumptions C14_unique_times.
+
+(* factor_spec: powf (n_t / N_t) applied to one exponent per group member ... *)
+Theorem C14_factor_spec :
+  forall powf nz av uv d t m n target Nt b es,
+  norm_on nz = true ->
+  py_parameters__get_target_cell_count nz (VArr KF [] [t]) av uv = Ok target ->
+  as_num target = Some Nt -> xf_div (xf_of_Z (Z.of_nat n)) (num_xf Nt) = Some b ->
+  exponents d m = Ok es ->
+  fac_of powf nz av uv d t m n = Ok (Some (map (powf b) es)).
+Proof. exact fac_of_on. Qed.
+Print Assumptions C14_factor_spec.
+
+(* ... the exponent is 1/d (scalar) or 1/d_i of the member's own cell (vector) ... *)
+Theorem C14_factor_exponent :
+  (forall q m, Qeq_bool q 0 = false -> exponents (VFloat (XFin q)) m = Ok (repeat (XFin (Qred (1 / q))) (count_true m)))
+  /\ (forall kd n dd m, exponents (VArr kd [n] dd) m = Ok (map xf_inv (select m dd))).
+Proof. split; [exact exponents_scalar|exact exponents_vector]. Qed.
+Print Assumptions C14_factor_exponent.
+
+(* ... and N_t is the average for True, the entry of the dict, the j-th entry for the j-th unique time in ascending order *)
+Theorem C14_factor_target :
+  (forall b t av uv, py_parameters__get_target_cell_count (VBool b) t av uv = Ok av)
+  /\ (forall l t av uv, py_parameters__get_target_cell_count (VDict l) (VArr KF [] [t]) av uv
+        = match assoc_lookup (VFloat t) l with Some v => Ok v | None => Err KeyError end)
+  /\ (forall l uts k j av, distinct uts -> (j < length uts)%nat -> xf_isnan (nth j uts XNaN) = false -> (j < length l)%nat ->
+        py_parameters__get_target_cell_count (VList l) (VArr KF [] [nth j uts XNaN]) av (VArr KF [k] uts) = Ok (nth j l VNone))
+  /\ (forall kd n d uts k j av, distinct uts -> (j < length uts)%nat -> xf_isnan (nth j uts XNaN) = false -> Z.of_nat j < n ->
+        py_parameters__get_target_cell_count (VArr kd [n] d) (VArr KF [] [nth j uts XNaN]) av (VArr KF [k] uts)
+        = Ok (VArr kd [] [nth j d XNaN])).
+Proof. exact (conj target_bool (conj target_dict (conj target_list target_array))). Qed.
+Print Assumptions C14_factor_target.
+
+Theorem C14_missing_key_refused :
+  forall l k uts,
+  py_parameter_validation_validate_normalize_parameter (VDict l) (VArr KF [k] uts)
+  = if forallb (has_key l) uts then Ok VNone else Err ValueError.
+Proof. exact validate_normalize_dict. Qed.
+Print Assumptions C14_missing_key_refused.
+
+Theorem C14_wrong_length_refused :
+  (forall l k uts, py_parameter_validation_validate_normalize_parameter (VList l) (VArr KF [k] uts)
+     = if Z.of_nat (length l) =? k then Ok VNone else Err ValueError)
+  /\ (forall kd n d k uts, py_parameter_validation_validate_normalize_parameter (VArr kd [n] d) (VArr KF [k] uts)
+     = if n =? k then Ok VNone else Err ValueError)
+  /\ (forall kd n d k uts, py_parameter_validation_validate_normalize_parameter (VNpArr kd [n] d) (VArr KF [k] uts)
+     = if n =? k then Ok VNone else Err ValueError).
+Proof. exact (conj validate_normalize_list (conj validate_normalize_array validate_normalize_nparray)). Qed.
+Print Assumptions C14_wrong_length_refused.
+
+(* n_obs: cells per time point; mean of the dict entries of the time points present; mean of the list *)
+Theorem C14_n_obs_spec :
+  (forall n c dat nz, 1 <= c -> nz = VNone \/ (exists b, nz = VBool b) ->
+     py_parameters_compute_average_cell_count (VArr KF [n; c] dat) nz = py_truediv (VInt n) (VInt (n_unique dat n c)))
+  /\ (forall n c dat l, 1 <= c -> forallb (dict_has l) (sort_dedup (col_list dat n c (c - 1))) = true ->
+     py_parameters_compute_average_cell_count (VArr KF [n; c] dat) (VDict l)
+     = bind (py_sum (VList (map (dict_get l) (sort_dedup (col_list dat n c (c - 1))))))
+            (fun s => py_truediv s (VInt (n_unique dat n c))))
+  /\ (forall n c dat l, 1 <= c ->
+     py_parameters_compute_average_cell_count (VArr KF [n; c] dat) (VList l)
+     = bind (bind (np_asarray (VList l)) np_sum) (fun s => py_truediv s (VInt (Z.of_nat (length l))))).
+Proof. exact (conj average_count_flag (conj average_count_dict average_count_list)). Qed.
+Print Assumptions C14_n_obs_spec.
+
+Theorem C14_ls_uses_raw :
+  forall nnw ls_of ls_factor nn nz x, norm_on nz = true ->
+  tsde_compute_ls nnw ls_of ls_factor nn nz x
+  = bind (nnw x VNone VNone (VBool false)) (fun raw => bind (ls_of raw) (fun ls => py_mul ls ls_factor)).
+Proof. exact ls_uses_raw_lemma. Qed.
+Print Assumptions C14_ls_uses_raw.
+
+Theorem C14_nn_distances_wiring :
+  forall nnw d nz x,
+  tsde_compute_nn_distances nnw d nz x = bind (nnw x VNone d nz) (fun v => py_validation_validate_nn_distances v (VBool false)).
+Proof. exact compute_nn_wiring. Qed.
+Print Assumptions C14_nn_distances_wiring.
+
+Theorem C14_explicit_nn_untouched :
+  forall nnw k n dat d nz x,
+  prepare_attr14 (VArr k [n] dat) (tsde_compute_nn_distances nnw d nz x) = Ok (VArr k [n] dat).
+Proof. exact explicit_nn_untouched_lemma. Qed.
+Print Assumptions C14_explicit_nn_untouched.
+
+(* ---- non-vacuity: the hypotheses of the implications are satisfiable on a concrete instance ---- *)
+Definition ex_cells : list (list xf * xf) :=
+  [([XFin 1], XFin (3#2)); ([XFin 2], XFin (1#4)); ([XFin 3], XFin (3#2)); ([XFin 4], XFin (1#4)); ([XFin 5], XFin (3#2))].
+Definition ex_nn (g : list (list xf)) : list xf := map (fun r => hd XNaN r) g.
+Example C14_nonvacuous_loop :
+  loop ex_nn (fac_of (fun b e => b) (VList [VInt 4; VInt 6]) (VFloat (XFin (5#2))) (VArr KF [2] [XFin (1#4); XFin (3#2)]) (VFloat (XFin 1)))
+       ex_cells (sort_dedup (map snd ex_cells)) (repeat (XFin 0) 5)
+  = Ok [XFin (1#2); XFin 1; XFin (3#2); XFin 2; XFin (5#2)].
+Proof. vm_compute. reflexivity. Qed.
+Example C14_nonvacuous_factor :
+  norm_on (VBool true) = true /\ exponents (VFloat (XFin 2)) [true; false; true] = Ok [XFin (1#2); XFin (1#2)]
+  /\ distinct [XFin (1#4); XFin (3#2)].
+Proof. split; [reflexivity|]. split; [vm_compute; reflexivity|]. apply (sort_dedup_distinct [XFin (3#2); XFin (1#4); XFin (3#2)]). Qed.
+Example C14_nonvacuous_singleton :
+  loop ex_nn (fun _ _ _ => Ok None) (([XFin 9], XFin 7) :: ex_cells) (sort_dedup (map snd (([XFin 9], XFin 7) :: ex_cells))) (repeat (XFin 0) 6)
+  = Err ValueError.
+Proof. vm_compute. reflexivity. Qed.
+Example C14_nonvacuous_routine :
+  nn_within ex_nn (fun b e => b) (VArr KF [4; 2] [XFin 1; XFin 2; XFin 5; XFin 0; XFin 3; XFin 2; XFin 7; XFin 0]) VNone VNone (VBool false)
+  = Ok (VArr KF [4] [XFin 1; XFin 5; XFin 3; XFin 7]).
+Proof. vm_compute. reflexivity. Qed.
